@@ -6239,6 +6239,24 @@ pub mod verif_hooks {
 
     pub use fontdrasil::orchestration::verif_hooks::{enable, take};
 
+    /// Run a build and hand back the contexts it finished with, so that the
+    /// harness can compare what is in memory with what was written to the
+    /// build directory.
+    pub fn generate_font_with_contexts(
+        source: Box<dyn fontir::source::Source>,
+        options: crate::Options,
+    ) -> Result<
+        (
+            fontir::orchestration::Context,
+            fontbe::orchestration::Context,
+        ),
+        crate::Error,
+    > {
+        let (fe_root, be_root, _timer) =
+            crate::generate_font_internal(source, &options, crate::JobTimer::default())?;
+        Ok((fe_root, be_root))
+    }
+
     fn id_str(id: &AnyWorkId) -> String {
         h::esc(&format!("{id:?}"))
     }
